@@ -214,6 +214,18 @@ Fixpoint ev_nodes (n : node) : list node :=
 Definition ev_terms (roots : list node) : list term :=
   map (fun n => (1, n, [])) (flat_map ev_nodes roots).
 
+(* EVChargerPowerFormula for the charger ids [esel] (an EV-charger pool over a subset): the requested
+   chargers themselves - an EV-charger meter is never read by this formula *)
+Definition ev_sel (esel : list Z) (n : node) : bool := is_ev n && mem (nid n) esel.
+Fixpoint ev_pool_nodes (sel : node -> bool) (n : node) : list node :=
+  match n with
+  | Meter _ kids _ => flat_map (ev_pool_nodes sel) kids
+  | Ev _ _ => if sel n then [n] else []
+  | _ => []
+  end.
+Definition ev_pool_terms (roots : list node) (esel : list Z) : list term :=
+  map (fun n => (1, n, [])) (flat_map (ev_pool_nodes (ev_sel esel)) roots).
+
 (* CHPPowerFormula._get_chp_meters: every CHP must have a meter as predecessor all of whose
    successors are CHPs, else FormulaGenerationError (None); the set of those meters *)
 Fixpoint opt_concat {A} (l : list (option (list A))) : option (list A) :=
